@@ -1,6 +1,6 @@
 """C03 Task lifecycle and callbacks are exact and ordered."""
 from asyncio_taskpool import TaskPool
-from engine.prog import Interp, act, drive, parts_product, select, site_of
+from engine.prog import Interp, act, drive, parts_product, refine, select, site_of
 from engine.spec import Family
 from engine.world import Excluded, HarnessError, World
 
@@ -175,7 +175,7 @@ def families(tier):
             parts_product(cb=(4,), n1=(2,), x2=(1, 3, 6), x3=(1, 3))
     else:
         pre = base + ["0 <= x3 <= %d" % NOP, "a3 >= -1", "x4 == %d" % NOP, "a4 == 0"]
-        parts = parts_product(cb=range(5), n1=(2, 3), x2=range(NOP))
+        parts = refine(parts_product(cb=range(5), n1=(2, 3), x2=range(NOP)), ["x2 == 0"], "x3", range(NOP + 1))
     fams = [Family(name="life", fn="tpl_life", params=P, pre=pre, parts=parts,
                    twin_pre=["cb == 1", "n1 == 2", "x2 == 3", "x3 == 1", "x4 == %d" % NOP],
                    twin_args=[2, 1, 2, 3, 0, 1, 1, NOP, 0, 5])]
